@@ -59,7 +59,8 @@ func InverseHint(mod *big.Int, inputs []*big.Int, outputs []*big.Int) error {
 	}
 	nbBits := uint(inputs[0].Uint64())
 	nbLimbs := int(inputs[1].Int64())
-	if len(inputs[2:]) < 2*nbLimbs {
+	// the modulus has nbLimbs limbs; the value may have fewer (constants carry a minimal number of limbs)
+	if len(inputs[2:]) < nbLimbs {
 		return errors.New("inputs missing")
 	}
 	if len(outputs) != nbLimbs {
